@@ -410,10 +410,7 @@ def classify(r, m, have_model):
         return "impl", "panic: " + r["panic"]
     if "impl" not in r:
         return None, "rejected" if (r.get("err") or r.get("derr")) else "unsupported"
-    if not r.get("wf", True):
-        # outside the fragment where NOT inside a sequence has a defined meaning (notes/C03.md): not judged
-        return None, "gap_differs" if r["impl"] != r["sem"] else "gap_agrees"
-    if r["impl"] != r["sem"]:
+    if r.get("wf", True) and r["impl"] != r["sem"]:
         return "impl", "normal form and text as written disagree on %d of %d valuations" % (
             sum(a != b for a, b in zip(r["impl"], r["sem"])), len(r["sem"]))
     if r.get("impl2") and r["impl2"] != r.get("impl1c"):
@@ -423,15 +420,22 @@ def classify(r, m, have_model):
     if have_model:
         if m is None:
             return "model", "model produced no line"
-        # m = [sem, seml, evalnorm, impossible]
+        # m = [sem, seml, evalnorm, impossible, fuel, wf]
         if m[0] != r["sem"]:
             return "model", "model sem differs from the Go oracle sem"
         if m[2] != r["impl"]:
             return "model", "model normal form evaluates differently from the implementation's"
         if m[1] != r["seml"]:
             return "model", "model semL differs from the Go semL"
-        if (m[3] == "1") != bool(r["impossible"]) and "1" not in r["sem"] and False:
-            return "model", "impossible flag differs"
+        if (m[3] == "1") != bool(r["impossible"]):
+            return "model", "model and implementation disagree on 'matches nothing'"
+        if len(m) > 5 and (m[5] == "1") != bool(r.get("wf", True)):
+            return "model", "model and harness disagree on the unambiguous fragment (wf_seq)"
+        if len(m) > 4 and m[4] != "fuel_ok":
+            return "model", "model normalisation ran out of fuel / reached a panic branch: " + m[4]
+    if not r.get("wf", True):
+        # outside the fragment where NOT inside a sequence has a defined meaning (notes/C03.md): not judged
+        return None, "gap_differs" if r["impl"] != r["sem"] else "gap_agrees"
     return None, "ok"
 
 
